@@ -21,7 +21,7 @@ ASSUMPTIONS = ["a node instance is identified by (graph instance, node index); u
 FLOORS = {"faults_fired": {"quick": 1500, "thorough": 30000}, "start_faults": {"quick": 200, "thorough": 4000},
           "stop_faults": {"quick": 200, "thorough": 4000}, "eval_faults": {"quick": 400, "thorough": 8000},
           "nested_instance_faults": {"quick": 100, "thorough": 2000}, "instances_checked": {"quick": 10000, "thorough": 200000},
-          "dynamic_child_faults": {"quick": 100, "thorough": 2000}, "realtime_stops_with_values_still_queued": {"quick": 5, "thorough": 40}}
+          "dynamic_child_faults": {"quick": 100, "thorough": 2000}, "realtime_stops_with_values_still_queued": {"quick": 3, "thorough": 40}}
 BATCH = 60
 
 
